@@ -7,7 +7,7 @@ from vlib import *
 from props.gdscommon import *
 
 HARNESS_BINS = ["c01"]
-C10_PROOF_FILES = ["Gds/GdsSafety_proofs.v"]
+C10_PROOF_FILES = ["Gds/GdsSafety_proofs.v", "Gds/GdsImage_proofs.v"]
 CLASS_REAL = "gds-real-rounds-to-16^63"
 TWO252 = (252 + 1023) << 52
 FOREIGN = ["/repo/gds21/resources/sample1.gds", "/repo/gds21/resources/invalid_dates.gds",
@@ -15,6 +15,23 @@ FOREIGN = ["/repo/gds21/resources/sample1.gds", "/repo/gds21/resources/invalid_d
 VALID_RT = [x for x in range(60) if x not in (0x14, 0x18, 0x1D, 0x1E, 0x24, 0x25, 0x27, 0x28, 0x29, 0x34, 0x35)]
 REAL_WORDS = [0x7FFFFFFFFFFFFFFF, 0xFFFFFFFFFFFFFFFC, 0x7FFFFFFFFFFFFFFB, 0x0000000000000001, 0x8000000000000000, 0x00FFFFFFFFFFFFFF,
               0x4110000000000000, 0x0010000000000000, 0x7F10000000000000, 0x7F00000000000001, 0x40FFFFFFFFFFFFFF, 0x4100000000000001, 0x41000000000000FF]
+
+def read_str_repaired():
+    """textual marker, re-read from the source on every run: does GdsReader::read_str guard `data[len - 1]` with `len > 0`?
+    (commit a280dfb). The verdict does not depend on it (a panic fails the property whatever the model says); it selects
+    which model the implementation is COMPARED with: Gds/GdsRead.v read_lib (repaired) or read_lib_orig (as found)."""
+    import re
+    try:
+        src = open(os.path.join(REPO, "gds21/src/read.rs"), encoding="utf8").read()
+    except OSError:
+        return None
+    m = re.search(r"fn read_str\b(.*?)\n    fn ", src, re.S)
+    body = m.group(1) if m else src
+    if re.search(r"len\s*>\s*0\s*&&\s*data\[len\s*-\s*1\]", body):
+        return True
+    if re.search(r"if\s+data\[len\s*-\s*1\]\s*==", body):
+        return False
+    return None
 
 def rec(rt, dt, payload=b""):
     n = len(payload) + 4
@@ -253,6 +270,19 @@ def run(chk, replay=None):
     else:
         cases, dist = gen_cases(chk)
     results = evaluate(chk, cases, "c10")
+    rep = read_str_repaired()
+    chk.cov["model_variant"] = {True: "repaired read_str (`len > 0 &&` guard present in gds21/src/read.rs): compared with read_lib",
+                                False: "read_str as found (no `len > 0` guard): panics additionally compared with read_lib_orig",
+                                None: "read_str not recognised in gds21/src/read.rs: compared with read_lib"}[rep]
+    if rep is None:
+        chk.broken.append("source marker: GdsReader::read_str in gds21/src/read.rs has neither the as-found nor the repaired form; the model may not describe it")
+    if rep is False:
+        # the code as found: the model of the code as found must predict every panic (and everything else)
+        idx = [i for i, (c, r) in enumerate(zip(cases, results)) if isinstance(r[1], dict) and "r" in r[1]]
+        res0 = harness("c01", [{"op": "read", "bytes": cases[i]["bytes"].hex()} for i in idx], timeout=300)
+        items = [capp("c10_check_orig", cbytes(cases[i]["bytes"]), c_rres(r0["r"])) for i, r0 in zip(idx, res0) if "r" in r0]
+        oc = eval_balanced(chk, items, "c10orig")
+        chk.cov["as_found_model_agrees"] = "%d of %d" % (sum(1 for x in oc if x == 0), len(oc))
     chk.cov["input_distribution"] = dist
     chk.cov["rule"] = ("fault injection per DESIGN.md C10 on impl-written streams of generated libraries and on the repository's GDSII files: truncation at every byte / around every record boundary, "
                        "length-field faults, zero-length payloads for every record and data type in four contexts, record/data type byte replaced, records deleted/duplicated/swapped/spliced, "
